@@ -247,8 +247,8 @@ theorem name_of_tryFrom (k : Bytes) (t : Tag) (h : Tag.tryFrom k = .ok t) : t.na
 /-- a field name the protocol parser can produce is an acceptable tag (the cross-module fact behind
 the `unwrap` in `handle_song_field`). If the parser's alphabet were widened beyond
 `Tag::try_from`'s, this lemma would break (see `C20.tagChar_eq_fieldNameChar`). -/
-theorem tryFrom_ok_of_wfKey (k : Bytes) (h : Spec.wfKey k = true) : ∃ t, Tag.tryFrom k = .ok t := by
-  simp only [Spec.wfKey, Bool.and_eq_true, Bool.not_eq_true', List.isEmpty_eq_false_iff] at h
+theorem tryFrom_ok_of_wfKey (k : Bytes) (h : Spec.wfFieldName k = true) : ∃ t, Tag.tryFrom k = .ok t := by
+  simp only [Spec.wfFieldName, Bool.and_eq_true, Bool.not_eq_true', List.isEmpty_eq_false_iff] at h
   exact (C20.C20_parse_accepts_iff k).mpr ⟨h.1, by rw [C20.tagChar_eq_fieldNameChar]; exact h.2⟩
 
 /-! ## `lastOf` / `firstOf` / `durText` under one more line -/
